@@ -544,3 +544,61 @@ func verifSetValuesBatch(tag string) {
 
 func Verif_C04_SetValuesBatch() { verifSetValuesBatch("C04") }
 func Verif_C01_SetValuesBatch() { verifSetValuesBatch("C01") }
+
+// Verif_C04_SamplerSparesKeysWithoutDeadline: a key that HAD a deadline (live or already passed, not yet
+// removed) and then lost it through a write that clears deadlines (plain SET / MSET over it, PERSIST,
+// GETEX PERSIST) — whatever the volatile-key index still says about it — is never removed by the
+// background expiry cycle, at any later instant, for any sample size and any random draws.
+func Verif_C04_SamplerSparesKeysWithoutDeadline() {
+	s, clk, nowMs := c04Server()
+	k := vr.Tok("k")
+	dl, dlMs := symInstant("dl")
+	verifPreset(s, 0, k, vr.Tok("old"))
+	verifPresetExpiry(s, 0, k, dl)
+	nv := vr.Tok("new")
+	switch vr.Choose("clear", 4) {
+	case 0:
+		c05Run(s, "SET", k, nv)
+	case 1:
+		c05Run(s, "MSET", k, nv)
+	case 2:
+		vr.Assume(dlMs >= nowMs)
+		c05Run(s, "PERSIST", k)
+		nv = ""
+	case 3:
+		vr.Assume(dlMs >= nowMs)
+		c05Run(s, "GETEX", k, "PERSIST")
+		nv = ""
+	}
+	_, hasDl, exists := c04Deadline(s, k)
+	vr.Assert(exists && !hasDl, "C04.sampler_spares.write_cleared_the_deadline")
+	// a second volatile key so that the index is not empty either way
+	o := vr.Tok("o")
+	vr.Assume(o != k)
+	verifPreset(s, 0, o, "ov")
+	verifPresetExpiry(s, 0, o, time.UnixMilli(msHi+1000))
+	later, laterMs := symInstant("later")
+	vr.Assume(laterMs >= nowMs)
+	*clk = later
+	sample := 1 + vr.Choose("sample", 3)
+	s.config.EvictionSample = uint(sample)
+	panicked := false
+	func() {
+		defer func() {
+			if r := recover(); r != nil {
+				panicked = true
+			}
+		}()
+		_ = s.evictKeysWithExpiredTTL(verifCtx(0))
+	}()
+	vr.Assert(!panicked, "C04.sampler_spares.nopanic")
+	e, still := s.store[0][k]
+	vr.Assert(still, "C04.sampler_spares.key_without_deadline_is_never_removed_by_expiry")
+	if still && nv != "" {
+		v, isStr := e.Value.(string)
+		vr.Assert(isStr && v == nv && e.ExpireAt.IsZero(), "C04.sampler_spares.value_and_no_deadline")
+	}
+	_, oStill := s.store[0][o]
+	vr.Assert(oStill, "C04.sampler_spares.live_key_survives")
+	vr.Reach("end")
+}
